@@ -32,10 +32,16 @@ def check(ctx):
     S.check_routing_inlined(ctx, "R-3", SFN)
     check_is_empty(ctx, "R-2")
     check_cbor_bstr(ctx, "R-2")
+    S.check_derived_impls(ctx, "R-3", {"core::clone::Clone"})
     # "... otherwise the encoded map": the header map that a built protected header contributes is what the header encoder
     # emits - its table is re-checked here (the recogniser of C11 R-1/R-2/R-5/R-6 under this property's name)
     from rules.c11 import check_map_encoder, HEADER_EMIT, HEADER_EXTRAS
     check_map_encoder(ctx, "header::Header", HEADER_EMIT, HEADER_EXTRAS, rules=("R-2", "R-2", "R-2", "R-2"))
+    # ... serialised by `to_vec()`: the trait default composed with the map form of the protected header
+    from rules.c11 import check_protected_map_form
+    from rules import c13 as _c13
+    check_protected_map_form(ctx, "R-2")
+    _c13.check_byte_api(ctx.under("R-2", "bytes-api"))
     S.check_carriers(ctx, "R-5", ["mac::CoseMac", "mac::CoseMac0"])
     n = 0
     for key, h in sorted(HELPERS.items()):
